@@ -63,7 +63,11 @@ class Player:
         self.objs = {}
         self.names = NAMES[:n]
         try:
-            self.objs[1] = self.Vector(self.names, [tok2f(x) for x in dflt], [tok2f(x) for x in mins],
+            dvals = [tok2f(x) for x in dflt]
+            clip0 = [min(max(0.0, tok2f(a)), tok2f(b)) for a, b in zip(mins, maxs)]
+            if dvals == clip0 and (n + int(chk) + int(nanok)) % 2:
+                dvals = None            # the constructor's own default: zero clipped to the bounds
+            self.objs[1] = self.Vector(self.names, dvals, [tok2f(x) for x in mins],
                                        [tok2f(x) for x in maxs], check_bounds=chkb,
                                        check_hitbounds=chk, accept_nan=nanok)
             return "ok"
